@@ -711,6 +711,8 @@ def main(run):
         os.chdir(tmp)
         _stage(run, "settings contradicting the input yaml", W.override_flows, run, tmp, run.rng, thorough)
         os.chdir(tmp)
+        _stage(run, "boundary values through the workflows", W.boundary_flows, run, tmp, flows[0], tb, run.rng, thorough)
+        os.chdir(tmp)
         _stage(run, "run-mode decision", W.decision_checks, run, tmp, flows[0], run.rng, thorough)
     finally:
         os.chdir(cwd)
